@@ -14,7 +14,7 @@ Line protocol of C09.
         R:p  addRootNode      A:a:p addNode(a,p)        T:a:p attachNodeLocked(a,p)
         O:a:p addOrAttachNode W:p:w addWatcher(p,w)     U:e:w removeWatcher(e,w)
         X:i:j removeDescendant(ids)  D:p deleteNode     Z reset
-      output: one segment per op, joined by `#`:  res|counter|names|nodes   (see `render`)
+      output: one segment per op, joined by `#`:  res|counter|names|nodes|shadowed   (see `render`)
 
   sys <op> ...
       scenario on a started actor system (see harness/inpkg/actor/zz_verif_c09sys.go); actor `a<k>` has id 10+k,
@@ -54,7 +54,9 @@ def render (t : Tree) (r : Res) : String :=
   let d := t.toDump
   let names := joinOr "-" "," ((sortBy1 d.names).map fun e => s!"{e.1}>{e.2.1}" ++ (if e.2.2 then "" else "!"))
   let nodes := joinOr "-" " " ((sortBy1 t.pids).map fun e => renderNode t e.2)
-  "|".intercalate [resStr r, toString d.counter, names, nodes]
+  let flag (q : Nat × Bool) := toString q.1 ++ (if q.2 then "" else "!")
+  let sh := joinOr "-" "," ((sortBy1 d.shadowed).map fun e => s!"{e.1}>" ++ ".".intercalate (e.2.map flag))
+  "|".intercalate [resStr r, toString d.counter, names, nodes, sh]
 
 def pid? (nm : Nat) (s : String) : Option Pid :=
   match s.splitOn "." with
@@ -134,14 +136,23 @@ def nameEntry? (e : String) : Option (Nat × Nat × Bool) :=
     | _, _ => none
   | _ => none
 
+def shadowEntry? (e : String) : Option (Nat × List (Nat × Bool)) :=
+  match e.splitOn ">" with
+  | [a, l] =>
+    match a.toNat?, (l.splitOn ".").mapM flagged? with
+    | some a, some l => some (a, l)
+    | _, _ => none
+  | _ => none
+
 def dump? (seg : String) : Option Dump :=
   match seg.splitOn "|" with
-  | [_, c, names, nodes] =>
+  | [_, c, names, nodes, sh] =>
     let names := if names = "-" then some [] else (names.splitOn ",").mapM nameEntry?
     let nodes := if nodes = "-" then some [] else (words nodes).mapM node?
-    match c.toInt?, names, nodes with
-    | some c, some names, some nodes => some { counter := c, names := names, nodes := nodes }
-    | _, _, _ => none
+    let sh := if sh = "-" then some [] else (sh.splitOn ",").mapM shadowEntry?
+    match c.toInt?, names, nodes, sh with
+    | some c, some names, some nodes, some sh => some { counter := c, names := names, nodes := nodes, shadowed := sh }
+    | _, _, _, _ => none
   | _ => none
 
 /-! judge of `sys` cases: the spec side keeps its own books (who is whose child, who runs) -/
@@ -223,6 +234,7 @@ def judge (line : String) : String :=
       | some (d, i) =>
         let why := if !counterOK d then "counter differs from the number of registered nodes"
           else if !namesOK d then "names index points to a cleared or differently named node"
+          else if !shadowOK d then "a registered node is not reachable through its name (neither the names entry nor shadowed), or shadowed holds a cleared / wrong node"
           else "watchers and watchees are not mutually inverse"
         s!"bad tree inconsistent after op {i}: {why}"
   | "sys" :: toks =>
